@@ -689,6 +689,8 @@ func runC02(c *Ctx) {
 	ruleRebuild(c, p, "C02.rebuild")
 	ruleCompressDst(c, p, "C02.dst")
 	ruleForwardAll(c, p, "C02.forward-all")
+	ruleHeaderPerBlock(c, p, "C02.header-per-block")
+	ruleExternalPresence(c, p, "C02.external-presence")
 	if roles := resolveDo(c, p); roles != nil {
 		ruleDiscard(c, p, roles, "C02")
 	}
